@@ -162,7 +162,7 @@ def run(report, findings):
                     report.violation(f"formula {f!r}: {sig}", {"formula": f, "signature": sig, "frame": f"vf.props.C06.frame({sd})", "selection": si})
     report.coverage.update({
         "evaluations": evals, "distinct_nontrivial": ok,
-        "rule": "distinct (formula, row selection, matrix): 58 formulas x 15 row multisets (identity, reversal, single rows, "
+        "rule": f"distinct (formula, row selection, matrix): {len(FORMULAS)} formulas x 15 row multisets (identity, reversal, single rows, "
                 "repetitions, random subsets, over-sized multisets, level-dropping subsets) x {common, group}; non-trivial = the "
                 "new-data matrix was produced and compared entry-wise with the training rows",
         "samples": FORMULAS[:3] + FORMULAS[20:23] + FORMULAS[-8:-5], "new_failures": bad})
